@@ -152,6 +152,7 @@ class _Normalizer:
             # (a cache and the emptying of what it hands out may have met only now, in the caller)
             self._each_function(m, self._memo_elision)
             self._each_function(m, self._missing_hooks)
+            self._each_function(m, self._pathlib_forms)
             self._each_function(m, self._builtin_forms)
             self._each_function(m, self._iteration_idioms)
             self._each_function(m, self._yield_from)
@@ -1315,6 +1316,73 @@ class _Normalizer:
 
     # ------------------------------------------------------------------ 6b. one spelling for builtin idioms
     ITER_CONSUMERS = ('max', 'min', 'sorted', 'list', 'tuple', 'set', 'frozenset', 'iter', 'enumerate', 'any', 'all', 'sum', 'len')
+
+    PATH_CTORS = ('pathlib.Path', 'Path', 'pathlib.PurePath', 'PurePath', 'pathlib.PosixPath')
+    PATH_TO_PATH = ('with_name', 'with_suffix', 'with_stem', 'joinpath', 'resolve', 'absolute', 'expanduser')
+    PATH_CALLS = {'exists': 'os.path.exists', 'is_file': 'os.path.isfile', 'is_dir': 'os.path.isdir', 'unlink': 'os.remove',
+                  'rename': 'os.rename', 'replace': 'os.replace', 'rmdir': 'os.rmdir', 'stat': 'os.stat', 'mkdir': 'os.mkdir'}
+
+    def _pathlib_forms(self, fnode, cls, local):
+        """Methods of ``pathlib.Path`` objects as the functions they wrap: ``p.open(mode)`` -> ``open(p, mode)``, ``p.exists()`` ->
+        ``os.path.exists(p)``, ``p.unlink()`` -> ``os.remove(p)``, ``p.rename(q)`` -> ``os.rename(p, q)`` ...  A value is a path when it
+        is ``pathlib.Path(..)``, ``path / x``, ``x / path``, ``path.with_name(..)`` (and the like), ``path.parent``, or a local bound
+        only to such values."""
+        if not any(isinstance(n, ast.Call) and ast.unparse(n.func) in self.PATH_CTORS for n in ast.walk(fnode)):
+            return
+        me = self
+        binds: Dict[str, List[ast.expr]] = {}
+        for n in ast.walk(fnode):
+            if isinstance(n, ast.Assign) and len(n.targets) == 1 and isinstance(n.targets[0], ast.Name):
+                binds.setdefault(n.targets[0].id, []).append(n.value)
+            elif isinstance(n, (ast.For, ast.AugAssign, ast.AnnAssign, ast.With, ast.NamedExpr)) or isinstance(n, ast.Assign):
+                for t in ast.walk(n):
+                    if isinstance(t, ast.Name) and isinstance(t.ctx, ast.Store) and not (
+                            isinstance(n, ast.Assign) and len(n.targets) == 1 and n.targets[0] is t):
+                        binds.setdefault(t.id, []).append(None)
+        params = {a.arg for a in fnode.args.args + fnode.args.kwonlyargs}
+        paths: Set[str] = set()
+
+        def is_path(e) -> bool:
+            if isinstance(e, ast.Call) and ast.unparse(e.func) in me.PATH_CTORS:
+                return True
+            if isinstance(e, ast.BinOp) and isinstance(e.op, ast.Div):
+                return is_path(e.left) or is_path(e.right)
+            if isinstance(e, ast.Call) and isinstance(e.func, ast.Attribute) and e.func.attr in me.PATH_TO_PATH:
+                return is_path(e.func.value)
+            if isinstance(e, ast.Attribute) and e.attr == 'parent':
+                return is_path(e.value)
+            if isinstance(e, ast.Name):
+                return e.id in paths
+            return False
+        # greatest fixed point: a local re-bound from itself (``p = p.with_name(..)``) stays a path
+        paths.update(nm for nm, vals in binds.items() if nm not in params and vals and None not in vals)
+        changed = True
+        while changed:
+            changed = False
+            for nm in sorted(paths):
+                if not all(is_path(v) for v in binds[nm]):
+                    paths.discard(nm)
+                    changed = True
+
+        class T(ast.NodeTransformer):
+            def visit_FunctionDef(self_, n):
+                return n if n is not fnode else self_.generic_visit(n)
+            visit_AsyncFunctionDef = visit_FunctionDef
+
+            def visit_Call(self_, n):
+                n = self_.generic_visit(n)
+                if isinstance(n.func, ast.Attribute) and is_path(n.func.value):
+                    if n.func.attr == 'open':
+                        me.stats['pathlib_forms'] = me.stats.get('pathlib_forms', 0) + 1
+                        return ast.copy_location(ast.Call(func=ast.Name(id='open', ctx=ast.Load()), args=[n.func.value] + list(n.args),
+                                                          keywords=list(n.keywords)), n)
+                    if n.func.attr in me.PATH_CALLS and not n.keywords:
+                        me.stats['pathlib_forms'] = me.stats.get('pathlib_forms', 0) + 1
+                        fn = ast.parse(me.PATH_CALLS[n.func.attr], mode='eval').body
+                        return ast.copy_location(ast.Call(func=fn, args=[n.func.value] + list(n.args), keywords=[]), n)
+                return n
+        T().visit(fnode)
+        ast.fix_missing_locations(fnode)
 
     def _missing_tables(self) -> Dict[str, ast.expr]:
         """{module-level name: expression} for the names of this module bound once to ``K()`` with K a class of the module that
